@@ -325,14 +325,6 @@ class _UnderRule:
         self._rep.ok(self._rule, construct, *a, **k)
 
 
-# R04.12, instances that fail on the repository as it is.  NOT exceptions by design: each is a defect of /repo the rule found, reported
-# (rep.observe + the hardening report) and kept out of the verdict only until it is listed in known_findings.json; one reason per line.
-R0412_REPORTED = {
-    "const_property.py.jinja": "GENUINE DEFECT: has construct, no check_type_for_construct -> a const member is emitted unguarded and "
-                               "terminal wherever it stands: response schema oneOf [const 'a', const 'b', integer] with body \"b\" (or 3) "
-                               "raises ValueError from _parse_response instead of being decoded",
-}
-
 # error handlers of bytes.decode that never raise
 LENIENT_DECODE = {"ignore", "replace", "backslashreplace", "surrogateescape"}
 
@@ -1493,9 +1485,6 @@ def run(rep: Report, ctx: Any) -> str:
             if bad_env:
                 break
         short_name = tname.rsplit("/", 1)[-1]
-        if bad_env is not None and short_name in R0412_REPORTED:
-            rep.observe(f"R04.12 {short_name}: {R0412_REPORTED[short_name]}")
-            continue
         rep.check(bad_env is None, "R04.12", f"union_property.py.jinja::construct::member[{short_name}]::unguarded-only-when-nothing-follows",
                   f"a union member rendered by {short_name} ({'with' if checked else 'without'} check_type_for_construct) gets its construct "
                   f"outside try/except although decoding could continue (e.g. {bad_env}): a value of a later alternative raises out of the "
